@@ -33,6 +33,7 @@ pub fn profile() -> Profile {
     p.unused_structs = (0, 0);
     p.nonascii = 1;
     p.keyword_names = 2;
+    p.many_funcs = 4;
     p
 }
 
@@ -138,6 +139,7 @@ fn classes(sh: &Shader, stats: &mut Stats) {
     let exp = expect::expected_visibility(sh);
     stats.class_if(sh.globals.iter().enumerate().any(|(i, g)| g.binding.is_some() && exp[i] == 0), "unreached_binding");
     stats.class_if(sh.entries.len() >= 4, "entries>=4");
+    stats.class_if(sh.funcs.len() > 64, "helpers>64");
     let mut has_cont = false;
     let mut forms = std::collections::BTreeSet::new();
     let mut scan = |b: &[Stmt]| {
@@ -297,7 +299,12 @@ pub fn run(sut: &dyn Sut, tier: Tier) -> ! {
     run.canaries(&mut |v| eval_replay(sut, v));
     let cases = tier.pick(4000, 120000);
     let mut j = |choices: &[u32], st: &mut Stats| judge_wide(sut, choices, st);
-    if let Some(f) = run_inprocess(run.seed_for(1), cases, (120, 700), &mut stats, &mut j) {
+    let mut found = run_inprocess(run.seed_for(1), cases, (120, 700), &mut stats, &mut j);
+    if found.is_none() && tier == Tier::Thorough {
+        // coverage-guided search over the same choice sequences (libFuzzer, oracle in the target)
+        found = fuzz_choices(&run, &mut stats, (120, 700), 300, 12, 8_000, &mut j);
+    }
+    if let Some(f) = found {
         let mut st = Stats::new();
         let body = match C03.build(&f.choices, &mut st) {
             Some(b) => case_json(&b, &f.choices, None),
